@@ -322,6 +322,14 @@ def _pred(case):
                     c.true(nm + "/rejects", r is False, "%s accepted a matrix at distance %.3g (%s)" % (nm, d, case["defect"]), distance=d, reflection=case["defect"] in ("reflect", "swap"), pred=nm)
                 elif d <= ACCEPT:
                     c.true(nm + "/accepts", r is True, "%s rejected a valid matrix (distance %.3g)" % (nm, d), distance=d, pred=nm)
+            # the classes' own validity tests (used by every constructor)
+            cname = ("SE" if se else "SO") + str(dim)
+            okc, r = c.lib(cname + ".isvalid", lambda: getattr(L, cname).isvalid(M.copy(), check=True))
+            if okc:
+                if d > REJECT:
+                    c.true(cname + ".isvalid/rejects", bool(r) is False, "%s.isvalid accepted a matrix at distance %.3g (%s)" % (cname, d, case["defect"]), distance=d)
+                elif d <= ACCEPT:
+                    c.true(cname + ".isvalid/accepts", bool(r) is True, "%s.isvalid rejected a valid matrix (distance %.3g)" % (cname, d), distance=d)
             # wrong kind of argument is simply False with check on
             if dim == 3 and se:
                 okc, r = c.lib("isrot/4x4", lambda: b.isrot(M.copy(), check=True))
